@@ -15,7 +15,7 @@ LEVEL_TEXT = ('in every crash state every payload still under files/ must still 
               'its destination; re-running a killed trash-empty / trash-rm from the crash state must reach the final state of the uncrashed run, and trash-empty after a killed '
               'trash-restore must leave files/ and info/ empty')
 LEVEL_NOTE = 'crash = process kill between two system calls; trusted: shim trace completeness for mutating calls'
-RULE = ('scenarios: entry kinds {file, deep dir, symlink->dir} x {1, 3 entries} x command {restore same volume, restore cross-volume, empty, empty 0, rm *} (+ restore --overwrite, multi-index '
+RULE = ('scenarios: entry kinds {file, deep dir, symlink->dir} x {1, 3 entries (+ a hand-written entry named n.trashinfo.bak for the purging commands)} x command {restore same volume, restore cross-volume, empty, empty 0, rm *} (+ restore --overwrite, multi-index '
         'restores in thorough); crash before each mutating syscall + after the last; non-trivial = crash state differs from initial state; distinct = (command, kind, count, operation at death)')
 CMDS = ['restore', 'restore-xvol', 'empty', 'empty0', 'rm-star']
 TD = scen.HOME_TRASH
@@ -56,6 +56,12 @@ def setup(sb, s):
         r = sb.run(argv, cwd=B, env=env, now='2020-01-0%dT00:00:00' % (i + 1))
         if r.exit != 0:
             raise cell.HarnessError('HARNESS-SETUP put failed: %s' % r.err[-300:])
+    if s['cmd'] in ('empty', 'empty0', 'rm-star') and s['n'] == 3:
+        # one more entry, written the way another implementation would: its name contains '.trashinfo' before the end
+        with open(sb.root + TD + '/files/n.trashinfo.bak', 'w') as f:
+            f.write('payload of n.trashinfo.bak\n')
+        with open(sb.root + TD + '/info/n.trashinfo.bak.trashinfo', 'w') as f:
+            f.write('[Trash Info]\nPath=/home/u/w/n.trashinfo.bak\nDeletionDate=2020-01-05T00:00:00\n')
     if s['cmd'] == 'restore-overwrite':
         with open(sb.root + B + '/e0', 'w') as f:
             f.write('newer file in the way\n')
